@@ -346,7 +346,9 @@ def stepSim (acc : Sim × Bool × List String × List Json) (so : Json × Json) 
   let asked := if op == "unsub" then sim.asked ++ [sid] else sim.asked
   -- 3. the loop during the waiting window (longer than one push interval)
   let stuckNow := st1.subs.any (·.stuck)
-  let st2 : St := if st1.blocked && !stuckNow then { st1 with blocked := false } else st1
+  let st2a : St := if st1.blocked && !stuckNow then { st1 with blocked := false } else st1
+  -- the watch fails (the stream closes its channel): within this step it races with the step's own update
+  let st2 : St := if op == "closewatch" then turn st2a Ev.closed else st2a
   let evs : List Ev := pending.map Ev.unsub ++ (if st2.latest == reg then [] else [Ev.update reg]) ++ [Ev.tick]
   let st3 := run st2 evs
   let pending' := pending.filter fun i => !st3.closedIds.contains i
@@ -355,16 +357,16 @@ def stepSim (acc : Sim × Bool × List String × List Json) (so : Json × Json) 
   let obsLast (i : Nat) : Option (List String) :=
     let r := jget ob "readers"
     if jhas r (toString i) then some (jstrs (jget r (toString i))) else none
-  let sfx := if stuckNow then ":slow-reader" else ""
+  let sfx := if st3.exited then ":stream-closed" else if stuckNow then ":slow-reader" else ""
   let v1 := liveReaders.filterMap fun s => if obsLast s.id == some reg then none else some ("C27:not-converged" ++ sfx)
   let unsubDone (i : Nat) : Bool := let u := jget (jget ob "unsubs") (toString i); jbool (jget u "done") && jbool (jget u "closed")
   let v2 := asked.filterMap fun i => if unsubDone i then none else some ("C27:unsubscribe-blocked" ++ sfx)
   let agreeReaders := liveReaders.all fun s =>
-    if st3.blocked then obsLast s.id == some reg || obsLast s.id == (sim.prev.lookup s.id) || obsLast s.id == lastOf st3 s.id
+    if st3.blocked || st3.exited then obsLast s.id == some reg || obsLast s.id == (sim.prev.lookup s.id) || obsLast s.id == lastOf st3 s.id
     else obsLast s.id == lastOf st3 s.id && lastOf st3 s.id == some reg
   let agreeUnsubs := asked.all fun i => unsubDone i == st3.closedIds.contains i
   let prev := liveReaders.filterMap fun s => (obsLast s.id).map fun l => (s.id, l)
-  let mj := Json.mkObj [("blocked", st3.blocked), ("registered", Json.arr (reg.map Json.str).toArray),
+  let mj := Json.mkObj [("blocked", st3.blocked), ("exited", st3.exited), ("registered", Json.arr (reg.map Json.str).toArray),
     ("closed", Json.arr (st3.closedIds.map (fun i => ji (Int.ofNat i))).toArray)]
   ({ reg := reg, st := st3, pending := pending', asked := asked, prev := prev }, agree && agreeReaders && agreeUnsubs, viols ++ v1 ++ v2, models ++ [mj])
 
@@ -376,8 +378,9 @@ def handle (j : Json) : Json :=
   let (_, agree, viols, models) := (steps.zip obs).foldl stepSim (init, true, [], [])
   let hasSlow := steps.any fun s => jstr (jget s "mode") == "slow"
   let hasUnsub := steps.any fun s => jstr (jget s "op") == "unsub"
+  let hasClose := steps.any fun s => jstr (jget s "op") == "closewatch"
   verdict id (agree && steps.length == obs.length) (Json.arr models.toArray) viols.eraseDups
-    ("helium:" ++ (if hasSlow then "slow" else "ready") ++ (if hasUnsub then "+unsub" else ""))
+    ("helium:" ++ (if hasSlow then "slow" else "ready") ++ (if hasUnsub then "+unsub" else "") ++ (if hasClose then "+watchclosed" else ""))
 end HeliumO
 
 end Oracle.Misc
